@@ -82,6 +82,9 @@ func handleSet(params internal.HandlerFuncParams) ([]byte, error) {
 	// If expiresAt is set, set the key's expiry time as well
 	if options.expireAt != nil {
 		params.SetExpiry(params.Context, key, options.expireAt.(time.Time), false)
+	} else if keyExists && params.GetExpiry(params.Context, key) != (time.Time{}) {
+		// A new value without an expiry option does not inherit the deadline of the value it replaces.
+		params.SetExpiry(params.Context, key, time.Time{}, false)
 	}
 
 	return res, nil
@@ -105,6 +108,13 @@ func handleMSet(params internal.HandlerFuncParams) ([]byte, error) {
 	// Set all the values
 	if err = params.SetValues(params.Context, entries); err != nil {
 		return nil, err
+	}
+
+	// The new values do not inherit the deadlines of the values they replace.
+	for key := range entries {
+		if params.GetExpiry(params.Context, key) != (time.Time{}) {
+			params.SetExpiry(params.Context, key, time.Time{}, false)
+		}
 	}
 
 	return []byte(constants.OkResponse), nil
